@@ -23,12 +23,13 @@ def run(chk):
     chk.validate('session-behaviours', 'Trace_Session', 'Trace_Session.cfg', recs, driver='session', jobs=8)
     recs = core.run_driver('session', tier=chk.tier, seed=chk.seed, args=dict(what='calls'), timeout=3000)
     chk.validate('public-calls', 'Trace_Session', 'Trace_Session.cfg', recs, driver='session', jobs=8)
-    good = [r for r in recs if r['exc'] == '' and r['nargs'] >= 1][0]
+    goods = [r for r in recs if r['exc'] == '' and r['nargs'] >= 1]
+    good = goods[0]
 
     def corrupt(r):
         r['args_same'] = False
         return r
-    core.binding_demo(chk, 'bind-purity', 'Trace_Session', 'Trace_Session.cfg', good, corrupt, 'args_unchanged')
+    core.binding_demo(chk, 'bind-purity', 'Trace_Session', 'Trace_Session.cfg', good, corrupt, 'args_unchanged', candidates=goods[1:])
     recs = core.run_driver('session', tier=chk.tier, seed=chk.seed, args=dict(what='splits'), timeout=3000)
     chk.validate('split-fits', 'Trace_MM', 'Trace_MM.cfg', recs, driver='session', jobs=8)
     chk.assumptions = ['result identity is decided on byte digests; the abstract function of a fit is evaluated by a '
